@@ -448,6 +448,8 @@ def _recv_is_local(body, call, name):
 
 
 def run(ctx):
+    from rules.shared_rules import in_flight_removed_from_either_path
+    in_flight_removed_from_either_path(ctx, 'a', 'in_flight_removed_from_either_path')
     rule_a(ctx)
     gate = rule_b(ctx)
     if gate:
